@@ -28,7 +28,8 @@ import crosshair.statespace as _ss
 
 from crosshair.tracers import COMPOSITE_TRACER, TracingModule
 
-REPO_PREFIX = "/repo/"
+import os as _os
+REPO_PREFIX = _os.environ.get("VERIF_REPO", "/repo").rstrip("/") + "/"
 
 
 class CallRecorder(TracingModule):
